@@ -3,6 +3,7 @@
   Only property theorems and their non-vacuity examples live here.
 -/
 import FB.Lemmas.Json
+import FB.Lemmas.HashableJson
 namespace FB
 
 /-! ### sanitize produces sanitized values -/
@@ -245,6 +246,110 @@ theorem subObj_refl : (r a : List (String × Json)) → Json.wfO r = true → ke
     rw [lookupWith_self _ k v a h2 (h3 (k, v) (by simp))]
     exact isEqual_refl v h1.1
 end
+
+/-! ### equal hashable forms iff JSON-equal -/
+
+mutual
+/-- **C18**: `to_hashable(a) == to_hashable(b)` (Python `==`, so `(1,) == (1.0,)` etc. are in scope)
+    iff `is_equal(a, b)`, for all sanitized values. -/
+theorem toHashable_iff : (a : Json) → a.wf = true → (b : Json) → b.wf = true →
+    heq (toH a) (toH b) = isEqual a b
+  | .null, _, b, hb => by
+    cases b with
+    | bool y => cases y <;> simp [toH, heq, isEqual]
+    | tup ys => simp [Json.wf] at hb
+    | _ => simp [toH, heq, isEqual]
+  | .bool x, _, b, hb => by
+    cases b with
+    | bool y => cases x <;> cases y <;> simp [toH, heq, heqL, isEqual, numEq_01]
+    | arr ys => cases x <;> simp [toH, heq, heqL, isEqual, numEq_01]
+    | tup ys => simp [Json.wf] at hb
+    | obj kb => cases x <;> simp [toH, heq, isEqual, heqL_num_flatten]
+    | null => cases x <;> simp [toH, heq, isEqual]
+    | num n => cases x <;> simp [toH, heq, isEqual]
+    | str s => cases x <;> simp [toH, heq, isEqual]
+  | .num n, _, b, hb => by
+    cases b with
+    | bool y => cases y <;> simp [toH, heq, isEqual]
+    | num m => simp [toH, heq, isEqual]
+    | tup ys => simp [Json.wf] at hb
+    | _ => simp [toH, heq, isEqual]
+  | .str s, _, b, hb => by
+    cases b with
+    | bool y => cases y <;> simp [toH, heq, isEqual]
+    | str t => simp [toH, heq, isEqual]
+    | tup ys => simp [Json.wf] at hb
+    | _ => simp [toH, heq, isEqual]
+  | .arr xs, ha, b, hb => by
+    simp only [Json.wf] at ha
+    cases b with
+    | arr ys =>
+      simp only [Json.wf] at hb
+      simp only [toH, heq, heqL, isEqual, numEq_01, Bool.true_and]
+      exact toHashableL_iff xs ha ys hb
+    | bool y => cases y <;> simp [toH, heq, heqL, isEqual, numEq_01]
+    | tup ys => simp [Json.wf] at hb
+    | obj kb => simp [toH, heq, isEqual, heqL_num_flatten]
+    | _ => simp [toH, heq, isEqual]
+  | .tup _, ha, _, _ => by simp [Json.wf] at ha
+  | .obj ka, ha, b, hb => by
+    simp only [Json.wf, Bool.and_eq_true] at ha
+    cases b with
+    | obj kb =>
+      simp only [Json.wf, Bool.and_eq_true] at hb
+      simp only [toH, heq, isEqual]
+      rw [heqL_flatten_sortKeys (toHO ka) (toHO kb)
+        (by rw [keysOf_toHO]; exact (keysDistinct_iff_nodup ka).mp ha.2)
+        (by rw [keysOf_toHO]; exact (keysDistinct_iff_nodup kb).mp hb.2)]
+      unfold objEqH
+      rw [length_toHO, length_toHO, toHashableO_iff ka ha.1 kb hb.1]
+    | bool y => cases y <;> simp [toH, heq, isEqual, heqL_flatten_num]
+    | arr ys => simp [toH, heq, isEqual, heqL_flatten_num]
+    | tup ys => simp [Json.wf] at hb
+    | _ => simp [toH, heq, isEqual]
+theorem toHashableL_iff : (xs : List Json) → Json.wfL xs = true → (ys : List Json) → Json.wfL ys = true →
+    heqL (toHL xs) (toHL ys) = isEqualL xs ys
+  | [], _, ys, _ => by cases ys <;> simp [toHL, heqL, isEqualL]
+  | x :: xs, ha, ys, hb => by
+    simp only [Json.wfL, Bool.and_eq_true] at ha
+    cases ys with
+    | nil => simp [toHL, heqL, isEqualL]
+    | cons y ys =>
+      simp only [Json.wfL, Bool.and_eq_true] at hb
+      simp only [toHL, heqL, isEqualL]
+      rw [toHashable_iff x ha.1 y hb.1, toHashableL_iff xs ha.2 ys hb.2]
+theorem toHashableO_iff : (ka : List (String × Json)) → Json.wfO ka = true →
+    (kb : List (String × Json)) → Json.wfO kb = true →
+    (toHO ka).all (fun x => lookupH (heq x.2) x.1 (toHO kb)) = subObj ka kb
+  | [], _, kb, _ => by simp [toHO, subObj]
+  | (k, v) :: ka, ha, kb, hb => by
+    simp only [Json.wfO, Bool.and_eq_true] at ha
+    simp only [toHO, List.all_cons, subObj]
+    rw [toHashableO_iff ka ha.2 kb hb]
+    congr 1
+    -- the lookup of one key
+    induction kb with
+    | nil => simp [toHO, lookupH, lookupWith]
+    | cons y r ih =>
+      obtain ⟨k', v'⟩ := y
+      simp only [Json.wfO, Bool.and_eq_true] at hb
+      simp only [toHO, lookupH, lookupWith]
+      split
+      · exact toHashable_iff v ha.1 v' hb.1
+      · exact ih hb.2
+end
+
+/-- C18: the JSON equality is symmetric on sanitized values. -/
+theorem isEqual_symm (a b : Json) (ha : a.wf = true) (hb : b.wf = true) : isEqual a b = isEqual b a := by
+  rw [← toHashable_iff a ha b hb, ← toHashable_iff b hb a ha, heq_symm]
+
+/-- C18: the JSON equality is transitive on sanitized values. -/
+theorem isEqual_trans (a b c : Json) (ha : a.wf = true) (hb : b.wf = true) (hc : c.wf = true)
+    (h1 : isEqual a b = true) (h2 : isEqual b c = true) : isEqual a c = true := by
+  rw [← toHashable_iff a ha b hb] at h1
+  rw [← toHashable_iff b hb c hc] at h2
+  rw [← toHashable_iff a ha c hc]
+  exact heq_trans _ _ _ h1 h2
 
 example : isEqual (.obj [("a", .num (.int 1)), ("b", .arr [.bool true])])
     (.obj [("b", .tup [.bool true]), ("a", .num (.flt { num := 2, k := 1 }))]) = true := by decide
